@@ -329,6 +329,12 @@ def run(ctx: Ctx) -> None:
              "validators of the package")
     t = table(repo)
     _dyn_contracts(ctx, t)
+    # generated network kernels index state / params / out by the dimensions
+    # they were generated for (C16 D16.4/D16.7): the cache must hand one out
+    # only for exactly those dimensions
+    from sa.checks.c16 import _memo_key
+    _memo_key(ctx, repo.func(
+        "moptipyapps.dynamic_control.controllers.ann", "make_ann"), "D13.3")
     kernels = repo.kernels()
     ctx.floor("kernels", len(kernels), 57)
     jobs = []
